@@ -1,4 +1,5 @@
 #!/bin/bash
+shopt -s extglob
 # usage: selftest/run_seeded.sh [name-pattern]  - runs every /verif/seeded/<name>/patch.diff against the checks of the
 # property it breaks (scratch worktree only) and records the outcome in meta.json ("detected_by").
 cd /verif
@@ -10,7 +11,8 @@ for D in seeded/${1:-*}/; do
   SIG=$(echo "$OUT" | grep "sig=" | head -1 | sed 's/ :: .*//' | sed 's/^ *//')
   echo "$N: $LINE $SIG"
   python3 - "$D" "$PROP" "$LINE" "$SIG" <<'PY'
-import json,sys,os
+import json,sys,os,fcntl
+lk=open('/verif/.work/selftest.lock','w'); fcntl.flock(lk,fcntl.LOCK_EX)
 d,prop,line,sig=sys.argv[1:5]
 p=os.path.join(d,'meta.json'); m=json.load(open(p)) if os.path.exists(p) else {"breaks_property":prop}
 m["detected_by"]={"check":"./check %s quick"%prop,"result":line.split("prop=")[-1] if line else "not run","first_signature":sig}
